@@ -944,6 +944,11 @@ type vfJwtCase struct {
 	RKid  string     `json:"rkid,omitempty"`
 	RAlg  string     `json:"ralg,omitempty"`
 	Mut   string     `json:"mut,omitempty"`
+	// Prime = p+1: before the case's token is presented, the instance has served under key set p
+	// (one valid token per usable key of that set was verified on it: an earlier key generation of the
+	// provider); then the provider's key set is replaced by the case's.  The verdict must depend on
+	// the CURRENT key set only.  0 = a fresh instance that has seen nothing.
+	Prime int `json:"prime,omitempty"`
 	Obs   *vfJwtObs  `json:"obs,omitempty"`
 }
 
@@ -958,13 +963,69 @@ func vfJwtProtect(f func() bool) (res bool, panicked bool, msg string) {
 	return f(), false, ""
 }
 
-// observe presents tokA to the ladder and tokB to VerifyToken, each on a fresh instance
+// the key-set history of the instance a case runs on (set by vfJwtRunCase): 0 none, p+1 = it served under set p before
+var vfJwtPrime int
+var vfJwtPrimeSets []*vfJwtKeySet
+var vfJwtPrimeToks = map[string][]string{}
+
+// vfJwtPrimeTokens: one valid long-lived token per usable, self-selected key of key set p for a configuration (built once)
+func vfJwtPrimeTokens(p, cfgIdx int) []string {
+	key := fmt.Sprintf("%d/%d", p, cfgIdx)
+	if t, ok := vfJwtPrimeToks[key]; ok {
+		return t
+	}
+	var toks []string
+	ks := vfJwtPrimeSets[p]
+	for _, rsaKeys := range []bool{true, false} {
+		for _, sk := range vfJwtSigners(ks, rsaKeys) {
+			alg := "RS256"
+			if !rsaKeys {
+				switch ks.Keys[sk].Bits {
+				case 384:
+					alg = "ES384"
+				case 521:
+					alg = "ES512"
+				default:
+					alg = "ES256"
+				}
+			}
+			d := &vfJwtDesc{KS: p, Cfg: cfgIdx, SK: sk, SA: alg, Exp: "o:7000"}
+			if b, ok := vfJwtBuild(d, vfJwtPrimeSets, time.Now().Unix(), ""); ok {
+				toks = append(toks, b.Token)
+			}
+		}
+	}
+	vfJwtPrimeToks[key] = toks
+	return toks
+}
+
+// observe presents tokA to the ladder and tokB to VerifyToken, each on an instance of its own (fresh, or primed: see vfJwtPrime)
 func vfJwtObserve(cfg vfJwtConfig, ks *vfJwtKeySet, tokA, tokB string) *vfJwtObs {
 	o := &vfJwtObs{}
-	i1 := vfJwtNewInstance(cfg.Issuer, cfg.Client, ks.set)
-	i2 := vfJwtNewInstance(cfg.Issuer, cfg.Client, ks.set)
+	first := ks.set
+	var prime []string
+	if vfJwtPrime > 0 && vfJwtPrime-1 < len(vfJwtPrimeSets) {
+		ci := 0
+		for i, c := range vfJwtConfigs {
+			if c == cfg {
+				ci = i
+			}
+		}
+		prime = vfJwtPrimeTokens(vfJwtPrime-1, ci)
+		first = vfJwtPrimeSets[vfJwtPrime-1].set
+	}
+	i1 := vfJwtNewInstance(cfg.Issuer, cfg.Client, first)
+	i2 := vfJwtNewInstance(cfg.Issuer, cfg.Client, first)
 	defer vfJwtCloseInstance(i1)
 	defer vfJwtCloseInstance(i2)
+	for _, pt := range prime {
+		vfJwtProtect(func() bool { return vfJwtLadder(i1, pt) })
+		vfJwtProtect(func() bool { return vfJwtVerifyToken(i2, pt) })
+	}
+	if prime != nil { // the provider rotates its keys: from now on the case's key set is what it serves
+		vfJwtSetKeys(i1, ks.set)
+		vfJwtSetKeys(i2, ks.set)
+	}
 	o.Now = time.Now().UnixNano()
 	var p1, p2 bool
 	var m1, m2 string
@@ -1386,6 +1447,8 @@ func vfJwtValidDesc(r *vfRand, ksi, sk int, alg string) *vfJwtDesc {
 }
 
 func vfJwtRunCase(cs *vfJwtCase, sets []*vfJwtKeySet) bool {
+	vfJwtPrime, vfJwtPrimeSets = cs.Prime, sets
+	defer func() { vfJwtPrime = 0 }()
 	if cs.Kind == "raw" {
 		raw, err := base64.StdEncoding.DecodeString(cs.Raw)
 		if err != nil {
@@ -1623,8 +1686,17 @@ func TestVF_Jwt(t *testing.T) {
 	}
 
 	id := 0
+	primer := vfNewRand(vfSeed()).fork(202)
 	emit := func(cs *vfJwtCase) bool {
 		cs.ID = id
+		// a quarter of the cases run on an instance that served under ANOTHER key generation before
+		if cs.Prime == 0 && len(sets) > 1 && cs.Kind != "corpus" && primer.chance(1, 4) {
+			ksi := cs.RKS
+			if cs.Base != nil {
+				ksi = cs.Base.KS
+			}
+			cs.Prime = 1 + (ksi+1+primer.intn(len(sets)-1))%len(sets)
+		}
 		if !vfJwtRunCase(cs, sets) {
 			return false
 		}
